@@ -301,7 +301,8 @@ def check(ctx):
                             f"`{name}` is listed as a target gate but its class {c.name} defines no matrix, sparse matrix, Kraus matrices or state "
                             "preparation below the base classes: decomposition stops at an operator the simulator cannot apply", line=e.lineno)
     rep.floor("names in device gate tables", n_names, 90)
-    from .c33_extra import rebuild
+    from .c33_extra import modes, rebuild
 
     rebuild(ctx, rep)
+    modes(ctx, rep)
     return rep
